@@ -289,10 +289,10 @@ static void case_angle(Rng& rng, uint64_t index)
 
 static void setup()
 {
-	add_generator("rotation_3d", ctx().count(120000, 12000000), case_rotation3);
-	add_generator("rotation_2d", ctx().count(20000, 2000000), case_rotation2);
-	add_generator("spherical_with_axis", ctx().count(120000, 12000000), case_spherical_axis);
-	add_generator("spherical_plain", ctx().count(20000, 2000000), case_spherical_plain);
-	add_generator("angle", ctx().count(20000, 2000000), case_angle);
+	add_generator("rotation_3d", ctx().count(600000, 12000000), case_rotation3);
+	add_generator("rotation_2d", ctx().count(100000, 2000000), case_rotation2);
+	add_generator("spherical_with_axis", ctx().count(600000, 12000000), case_spherical_axis);
+	add_generator("spherical_plain", ctx().count(100000, 2000000), case_spherical_plain);
+	add_generator("angle", ctx().count(100000, 2000000), case_angle);
 }
 VERIF_MAIN("C16", setup)
